@@ -41,7 +41,7 @@ pub fn all_ops() -> Vec<EOp> {
     for s in 0..4 {
         v.push(EOp::AddFunc(s, 0));
     }
-    for b in 1..9 {
+    for b in 1..10 {
         v.push(EOp::AddFunc(0, b));
     }
     v.push(EOp::AddFunc(1, 1));
@@ -105,6 +105,15 @@ pub fn mvp_bases() -> Vec<(String, Vec<u8>)> {
                 r#"(module (type $r (func (result i32))) (type $v (func)) (import "env" "f" (func $if (param i32))) (table 2 funcref) (memory 1) (global $g i32 (i32.const 1))
                  (func $a (type $r) (i32.const 1)) (func $vv (type $v)) (func (export "run") (call $vv) (drop (call $a)) (call $if (global.get $g)))
                  (elem (i32.const 0) $a) (data (i32.const 0) "x"))"#,
+            )
+            .unwrap(),
+        ),
+        (
+            // unused imports in front of imports that stay: gc deletes import entries ahead of the memory / table imports
+            "mvp:unused-imports-before-imported-memory-and-table".into(),
+            wgen::stateful::assemble(
+                r#"(module (type $v (func)) (import "a" "f" (func)) (import "a" "g" (global $g i32)) (import "a" "u" (global i32)) (import "a" "m" (memory 1)) (import "a" "t" (table 2 funcref))
+                 (func (export "r") (result i32) (call_indirect (type $v) (i32.const 0)) (i32.load (global.get $g))))"#,
             )
             .unwrap(),
         ),
@@ -261,6 +270,13 @@ fn apply_op(o: &mut EObj, op: &EOp) {
                         fb.i32_const(k).block(bt, |b| {
                             b.i32_const(1).binop(ir::BinaryOp::I32Add);
                         }).drop();
+                    }
+                    9 => {
+                        // bulk-memory instructions on a data segment of the input (which may have needed no data-count section so far)
+                        let d = m.data.iter().next().map(|d| d.id());
+                        if let (Some(d), Some(mm)) = (d, mem) {
+                            fb.i32_const(0).i32_const(0).i32_const(0).memory_init(mm, d).data_drop(d);
+                        }
                     }
                     7 => {
                         // block types MVP can express, made through the public constructor
@@ -638,6 +654,8 @@ pub fn bases() -> Vec<(String, Vec<u8>)> {
         ("reach:[0,16,22]".into(), fam::build_reach(&[0, 16, 22])),
         ("names:all".into(), fam::build_names(0, 0x1ff)),
         ("struct:elem=40,start=2".into(), fam::build_struct(&[("elem", 40), ("start", 2)])),
+        // an active data segment and no instruction that needs a data-count section (so the input has none)
+        ("active-data-no-count".into(), wgen::stateful::assemble(r#"(module (memory 1) (func (export "f") (i32.store (i32.const 0) (i32.const 1))) (data (i32.const 0) "a"))"#).unwrap()),
         // types / globals / tables that only dead code uses: gc deletes them, a later edit re-creates them
         ("dead-types".into(), wgen::stateful::assemble(r#"(module
             (type $dead64 (func (result i64)))
